@@ -52,6 +52,10 @@ def single_result_shapes():
     sub2 = gen.sub_program("sub2.yaml", 1)
     mk("loop_after_step_slow_items", [gen.plugin_step("a", Expr(In("tag"))), Step("loop", "foreach", sub=sub2, items=[{"tag": gen.tagref("a")}, {"tag": Expr(In("tag"))}, {"tag": "k"}], parallelism=2)],
        {"success": {"d": Expr(Ref("loop", "outputs", "success", "data"))}}, scripts_extra={"sub2_w0": {"deploys": [{}, {"delay_ms": 45}]}})
+    # expressions over two steps, the first of which is already connected to the consuming node
+    for vseed in (11, 12, 13, 14):
+        ms, mo = gen.shape_multiref(random.Random(vseed))
+        mk("multiref%d" % vseed, ms, mo)
     mk("no_output_possible", [gen.plugin_step("a", Expr(In("tag"))), gen.plugin_step("b", gen.tagref("a"))],
        {"success": {"b": gen.tagref("b")}}, outcome={"a": "error"})
     return out
@@ -109,12 +113,12 @@ def plan_key(res, rclass, single_point=None):
 
 
 def run(check):
-    check.rule = ("17 single-result programs (one step, chain, diamond, enabled, disabled, wait_for, deploy expression, foreach, foreach+plugin, oneof, "
+    check.rule = ("21 single-result programs (one step, chain, diamond, enabled, disabled, wait_for, deploy expression, foreach, foreach+plugin, oneof, "
                   "wait-optional, error path, crash path, nothing producible, step stopped before it can start, loop whose items all fail together, loop over an "
                   "earlier step's result with slow items); a record run lists the schedule points (spliced before lock/unlock, channel "
                   "send/receive, select, wait-group, go statements, handler calls of workflow.go and both providers) each program hits; single-site sweep: one "
                   "sleep of D ms at the h-th hit of point P (quick: every hit point x first hit x 35 ms; thorough: x {first, second, last} x {35,120} ms) plus "
-                  "random multi-site plans (decision = hash(seed, point, hit)); oracle: result equals the reference result; non-trivial/distinct = "
+                  "pairs of 35 ms delays at neighbouring points of one function (4 programs) plus random multi-site plans (decision = hash(seed, point, hit)); oracle: result equals the reference result; non-trivial/distinct = "
                   "(program, point, hit, delay) actually executed and hit")
     check.assumptions = ["delays at schedule points are schedules the Go scheduler can produce (goroutines are preemptible everywhere)",
                          "35 ms is chosen against the engine's 3 x 10 ms fallback detector window"]
@@ -153,6 +157,18 @@ def run(check):
                         c2, s2 = runfam.build_case("c09-%05d" % idx, g, plan={"sites": [{"point": point, "hit": h, "ms": d}], "record": True}, plan_scope="execute")
                         idx += 1
                         items.append((c2, s2, dict(g, site=(point, h, d))))
+            # two delays at neighbouring schedule points of one function (a window opened by the first, held by the second)
+            if g["shape"] in ("one_step", "enabled_true", "wait_for", "deploy_expr"):
+                by_fn = {}
+                for point in sorted(hits):
+                    by_fn.setdefault(point.rsplit(":", 1)[0], []).append(point)
+                for fn, pts in sorted(by_fn.items()):
+                    for a_i in range(len(pts)):
+                        for b_i in range(a_i + 1, min(a_i + 3, len(pts))):
+                            sites = [{"point": pts[a_i], "hit": 1, "ms": 35}, {"point": pts[b_i], "hit": 1, "ms": 35}]
+                            c2, s2 = runfam.build_case("c09-%05d" % idx, g, plan={"sites": sites, "record": True}, plan_scope="execute")
+                            idx += 1
+                            items.append((c2, s2, dict(g, site=("pair", pts[a_i], pts[b_i]))))
             nr = check.pick(8, 150)
             for r in range(nr):
                 rng = random.Random(derive_seed(check.seed, "c09-rand", g["shape"], r))
@@ -169,7 +185,7 @@ def run(check):
         case, sem, g = by_id[cid]
         check.count()
         site = g["site"]
-        multi = site[0] == "multi"
+        multi = site[0] in ("multi", "pair")
         stats["random_plans" if multi else "single_site_plans"] += 1
         if "death" in o:
             d = o["death"]
